@@ -117,7 +117,7 @@ fn table(p: Profile) -> Vec<(K, u32)> {
     let events = vec![
         (SubscribeEvent, 6),
         (UnsubscribeEvent, 4),
-        (EmitEvent, 6),
+        (EmitEvent, 12),
         (SubscribeService, 3),
         (UnsubscribeService, 2),
         (SubscribeAllEvents, 4),
@@ -186,6 +186,10 @@ pub struct View {
     pub my_calls: Vec<(usize, u32)>,
     /// (query serial, queried connection id)
     pub queries: Vec<(u32, usize)>,
+    /// (service cookie, owner connection id, event id) with at least one subscriber
+    pub subscribed: Vec<(ServiceCookie, usize, u32)>,
+    /// (service cookie, subscriber connection id, event id)
+    pub subscriptions: Vec<(ServiceCookie, usize, u32)>,
 }
 
 pub const UNCLAIMED: usize = usize::MAX;
@@ -219,6 +223,24 @@ impl View {
                 .introspection
                 .iter()
                 .filter_map(|e| e.queried.map(|(c, s)| (s, c)))
+                .collect(),
+            subscribed: d
+                .svcs
+                .iter()
+                .filter_map(|s| owner_of_obj(&s.object_uuid).map(|o| (s, o)))
+                .flat_map(|(s, o)| {
+                    let mut v: Vec<(ServiceCookie, usize, u32)> = s.events.iter().map(|(e, _)| (s.cookie, o, *e)).collect();
+                    if !s.all_events.is_empty() {
+                        v.push((s.cookie, o, 0));
+                        v.push((s.cookie, o, 1));
+                    }
+                    v
+                })
+                .collect(),
+            subscriptions: d
+                .svcs
+                .iter()
+                .flat_map(|s| s.events.iter().flat_map(move |(e, cs)| cs.iter().map(move |c| (s.cookie, *c, *e))))
                 .collect(),
         }
     }
@@ -645,13 +667,26 @@ impl Pools {
                 event: rng.below(3) as u32,
             }
             .into(),
-            K::UnsubscribeEvent => UnsubscribeEvent { service_cookie: self.svc_live(rng, i, None), event: rng.below(3) as u32 }.into(),
-            K::EmitEvent => EmitEvent {
-                service_cookie: self.svc_live(rng, i, Some(true)),
-                event: rng.below(3) as u32,
-                value: self.value(rng),
+            K::UnsubscribeEvent => {
+                let me = self.me(i);
+                let mine: Vec<(ServiceCookie, u32)> = self.view.subscriptions.iter().filter(|x| x.1 == me).map(|x| (x.0, x.2)).collect();
+                let (service_cookie, event) = if !mine.is_empty() && rng.chance(3, 4) {
+                    *rng.pick(&mine)
+                } else {
+                    (self.svc_live(rng, i, None), rng.below(3) as u32)
+                };
+                UnsubscribeEvent { service_cookie, event }.into()
             }
-            .into(),
+            K::EmitEvent => {
+                let me = self.me(i);
+                let mine: Vec<(ServiceCookie, u32)> = self.view.subscribed.iter().filter(|x| x.1 == me).map(|x| (x.0, x.2)).collect();
+                let (service_cookie, event) = if !mine.is_empty() && rng.chance(3, 4) {
+                    *rng.pick(&mine)
+                } else {
+                    (self.svc_live(rng, i, Some(true)), rng.below(3) as u32)
+                };
+                EmitEvent { service_cookie, event, value: self.value(rng) }.into()
+            }
             K::SubscribeService => SubscribeService { serial, service_cookie: self.svc_live(rng, i, None) }.into(),
             K::UnsubscribeService => UnsubscribeService { service_cookie: self.svc_live(rng, i, None) }.into(),
             K::SubscribeAllEvents => SubscribeAllEvents {
